@@ -77,6 +77,8 @@ struct Node {
     bool is_listener = false;
     bool in_handler = false;
     uint64_t handler_steps = 0;
+    uint64_t handler_calls = 0;     // wrapped calls made by the handler in progress
+    uint64_t last_pc = 0;           // last instrumented edge executed (for attribution)
     uint64_t handler_frame = 0;
     std::string stdout_line;        // partial printf line
     uint64_t pct_prio = 0;
@@ -122,6 +124,8 @@ class World {
     uint64_t lat_lo = 20000, lat_hi = 200000;
     size_t rxq_cap = 64, canq_cap = 256;
     uint64_t step_budget = 20000000ULL;
+    uint64_t call_budget = 100000ULL;
+    std::function<void(Node &)> on_call_budget;
     SchedCfg sched;
     sim::Rng rng_sched, rng_cost, rng_net;
     sim::Digest digest, sched_digest;
